@@ -42,3 +42,33 @@ Example C19_example :
   grun {| r_blocks := 3; r_fault := Some 2; r_owns := true |} Fresh l0 [GNext; GNext; GNext]
   = (Finished, {| opened := 1; closed := 1; caller_closed := 0 |}).
 Proof. vm_compute. reflexivity. Qed.
+
+(* load_files over several locations (one reader at a time): for every list of locations - each
+   with its own number of blocks, fault position and ownership - and every trace of next / close /
+   drop on the loader: the caller's streams are never closed, at most the one file of the reader the
+   loader is suspended in is held, and once the loader has finished - exhausted, closed, dropped or
+   ended by an error in any block of any file - nothing is held *)
+Theorem C19_loader_balanced :
+  forall rs es,
+    let '(rs', s, l) := lrun rs Fresh l0 es in
+    caller_closed l = 0 /\ held l <= 1 /\
+    match rs', s with
+    | r :: _, Suspended _ => held l = (if r_owns r then 1 else 0)
+    | _, _ => held l = 0
+    end.
+Proof. exact loader_balanced. Qed.
+Print Assumptions C19_loader_balanced.
+
+Theorem C19_loader_terminal :
+  forall rs s l e, (e = GClose \/ e = GDrop) -> fst (fst (fst (lstep rs s l e))) = [].
+Proof. exact loader_terminal. Qed.
+Print Assumptions C19_loader_terminal.
+
+(* non-vacuity: three files of two blocks, the second file faulty in its second block: three
+   deliveries, then the error ends the load with nothing held; the third file is never opened *)
+Example C19_loader_example :
+  let r := {| r_blocks := 2; r_fault := None; r_owns := true |} in
+  let rf := {| r_blocks := 2; r_fault := Some 1; r_owns := true |} in
+  let '(rs', s, l) := lrun [r; rf; r] Fresh l0 [GNext; GNext; GNext; GNext] in
+  rs' = [] /\ s = Finished /\ opened l = 2 /\ closed l = 2.
+Proof. vm_compute. repeat split; reflexivity. Qed.
